@@ -1244,6 +1244,7 @@ func (c *c11) encCtorJob(job string, first int) {
 		r.Eval()
 		stage := "NewMember"
 		desc := func() any { return map[string]any{"percent_encoded_value": fmt.Sprintf("%q", enc)} }
+		r.Sample(desc)
 		defer c.guard(&stage, desc)()
 		want, wf := encRefDecode(enc)
 		m, err := baggage.NewMember("k", enc)
